@@ -2987,12 +2987,17 @@ class StaticFileHandler(RequestHandler):
             # but there is some prefix to the path that was already
             # trimmed by the routing
             if not self.request.path.endswith("/"):
-                if self.request.path.startswith(("//", "/\\")):
+                if not self.request.path.startswith("/") or self.request.path.startswith(
+                    ("//", "/\\")
+                ):
                     # A redirect with two initial slashes is a "protocol-relative" URL.
                     # This means the next path segment is treated as a hostname instead
                     # of a part of the path, making this effectively an open redirect.
                     # Reject paths starting with two slashes to prevent this
-                    # (browsers treat a backslash like a slash here).
+                    # (browsers treat a backslash like a slash here).  A path that
+                    # does not start with a slash at all is an absolute-form
+                    # request target ("GET http://host/ HTTP/1.1") and must not
+                    # be echoed into a Location either.
                     # This is only reachable under certain configurations.
                     raise HTTPError(
                         403, "cannot redirect path with two initial slashes"
